@@ -13,6 +13,13 @@ package provider
 //@ func provider.GetAcsUrlAndBindingForResponse
 //@   names url, binding
 //@   property C16
+//@   enter acsCalls = acsCalls + 1
+//@   enter acsBase = base(acs)
+//@   enter acsLen = len(acs)
+//@   enter acsReqBinding = requestProtocolBinding
+//@   enter acsVer = msgver
+//@   leave acsUrl = url
+//@   leave acsBinding = binding
 //@   ensures none: len(acs) == 0 ==> url == "" && binding == ""
 //@   ensures match: hasMatch(acs, requestProtocolBinding) ==>
 //@             exists m :: firstMatch(acs, requestProtocolBinding, m) && url == acs[m].Location && binding == acs[m].Binding
@@ -168,24 +175,70 @@ package provider
 //@   ensures C04.success-in-form-or-body-has-enveloped-signature-over-the-assertion-sent: succ() && emitKind != 2 && storedBindingSupported() ==>
 //@             asrt().Signature != nil && signCount == old(signCount) + 1 && signedTag == typetag("saml.AssertionType") && encVer == signedVer + 1 &&
 //@             eqExcept(as(signedBox, "saml.AssertionType"), asrt(), "Signature") && as(signedBox, "saml.AssertionType").Signature == nil
-//@   ensures C04.enveloped-signature-copied-unchanged: succ() && emitKind != 2 && storedBindingSupported() ==>
-//@             sigOver(signedBy, signedTag, signedBox) == signedRes &&
-//@             asrt().Signature.SignatureValue.Text == as(signedRes, "xmlsig.Signature").SignatureValue &&
-//@             len(asrt().Signature.SignedInfo.Reference) == 1 &&
-//@             asrt().Signature.SignedInfo.Reference[0].URI == as(signedRes, "xmlsig.Signature").SignedInfo.Reference.URI &&
-//@             asrt().Signature.SignedInfo.SignatureMethod.Algorithm == as(signedRes, "xmlsig.Signature").SignedInfo.SignatureMethod.Algorithm
+//@   ensures C04.enveloped-signature-is-the-one-created: succ() && emitKind != 2 && storedBindingSupported() ==> asrt().Signature == sigOut &&
+//@             sigOver(signedBy, signedTag, signedBox) == signedRes
 //@   ensures C04.redirect-signature-is-over-the-parameters-sent: succ() && emitKind == 2 ==> signStrCount == old(signStrCount) + 1 &&
 //@             sentRedirect(arAcsURL(arReq), arRelayState(arReq), p.conf.SignatureAlgorithm,
 //@               b64enc(signStr(signCtx, redirectQuery(b64enc(deflate(msgBytes())), arRelayState(arReq), p.conf.SignatureAlgorithm, ""))))
 //@   ensures C04.redirect-only-for-redirect-binding-with-consumer-url: succ() && emitKind == 2 ==> arBinding(arReq) == RedirectBinding && arAcsURL(arReq) != ""
 //@
+//@ ## ---- SSO endpoint ----
+//@ pure accepted() = persistCount == old(persistCount) + 1 && !persistFailed
+//@ pure reqDoc() = as(persistReq, "samlp.AuthnRequestType")
+//@ pure regSP() = as(spRef, "serviceprovider.ServiceProvider")
+//@ pure spMeta() = regSP().Metadata
+//@ pure spAcs() = regSP().Metadata.SPSSODescriptor.AssertionConsumerService
+//@ pure redirectBinding(r) = maphas(queryMapOf(r.URL), "SAMLRequest")
+//@ pure signingRequired(p) = xsTrue(spMeta().SPSSODescriptor.AuthnRequestsSigned) || xsTrue(p.conf.WantAuthRequestsSigned)
+//@ pure envelopedSigValue() = reqDoc().Signature != nil && reqDoc().Signature.SignatureValue.Text != ""
+//@ pure verifiedRedirect(r) = vrCalls == old(vrCalls) + 1 && vrOK && vrSP == spRef && vrReq == formValue(r, "SAMLRequest") &&
+//@             vrRelay == formValue(r, "RelayState") && vrAlg == formValue(r, "SigAlg") && vrSig == formValue(r, "Signature")
+//@ pure verifiedPost(r) = vpCalls == old(vpCalls) + 1 && vpOK && vpSP == spRef && vpDoc == b64dec(formValue(r, "SAMLRequest"))
+//@ pure epPath(e, dflt) = e != nil ? e.path : dflt
+//@ pure epURL(e) = e != nil ? e.url : ""
+//@ pure absOf(path, url, host) = url != "" ? url : trimSuffix(host, "/") + ("/" + trimPrefix(path, "/"))
+//@ pure ssoEP(c) = c.Endpoints != nil ? c.Endpoints.SingleSignOn : nil
+//@ pure advertisedSSO(p, r) = absOf(epPath(ssoEP(p.conf), "SSO"), epURL(ssoEP(p.conf)), issuerOfCtx(ctxOf(r)))
+//@ pure failedReply() = httpError() || (isResponse() && msgCurrent() && statusOf() != StatusCodeSuccess && carriesNoUserData() &&
+//@             (sentBody() || emitKind == 4 || (emitKind == 2 && emitCode == 302)))
+//@
 //@ func (*provider.IdentityProvider).ssoHandleFunc
 //@   inline
 //@   property C09
 //@   requires wfIDP(p) && wfReq(r) && w != nil
-//@   ensures C08.exactly-one-reply: emitCount == old(emitCount) + 1
+//@   requires !faulted && !persistedAfterFault
+//@   ## C08: one request, one outcome
+//@   ensures C08,C10.exactly-one-reply: emitCount == old(emitCount) + 1
 //@   ensures C08.persist-at-most-once: persistCount == old(persistCount) || persistCount == old(persistCount) + 1
-//@   ensures C08.persisted-then-login-redirect: persistCount == old(persistCount) + 1 && !persistFailed ==> emitKind == 2 && emitCode == 303
+//@   ensures C08.accepted-means-login-redirect-for-the-stored-id: accepted() ==> emitKind == 2 && emitCode == 303 && spOK &&
+//@             emitStr == fnStr1(regSP().loginURL, arID(persistRes))
+//@   ensures C08,C10.otherwise-one-failure-reply: !accepted() ==> failedReply()
+//@   ensures C08.never-persisted-when-unanswerable: persistCount == old(persistCount) + 1 ==> persistAcs != "" &&
+//@             (persistBinding == PostBinding || persistBinding == RedirectBinding)
+//@   ensures C10.no-persistence-after-a-fault: !persistedAfterFault
+//@   canary C08.canary-never-accepted: !accepted()
+//@   ## C02: the pair persisted is one registered entry of the provider named by the request's issuer; error replies go nowhere else
+//@   ensures C02.persisted-pair-is-the-one-selected-from-the-issuers-metadata: persistCount == old(persistCount) + 1 ==> spOK && spLookups == old(spLookups) + 1 &&
+//@             rcReq == persistReq && rcSP == spRef &&
+//@             acsCalls == old(acsCalls) + 1 && acsBase == base(spAcs()) && acsLen == len(spAcs()) && acsVer == persistVer &&
+//@             persistAcs == acsUrl && persistBinding == acsBinding && acsUrl != ""
+//@   ensures C02.form-replies-target-the-selected-entry: emitKind == 4 ==> emitTmpl == p.postTemplate && emitTag == typetag("provider.authResponseForm") && spOK &&
+//@             acsCalls == old(acsCalls) + 1 && acsBase == base(spAcs()) && acsLen == len(spAcs()) &&
+//@             postForm().AssertionConsumerServiceURL == acsUrl && acsBinding == PostBinding && acsUrl != "" && postForm().RelayState == formValue(r, "RelayState")
+//@   ensures C02.redirect-replies-target-the-selected-entry: emitKind == 2 && emitCode == 302 ==> spOK &&
+//@             acsCalls == old(acsCalls) + 1 && acsBase == base(spAcs()) && acsLen == len(spAcs()) && acsBinding == RedirectBinding && acsUrl != "" &&
+//@             sentRedirect(acsUrl, formValue(r, "RelayState"), formValue(r, "SigAlg"), "")
+//@   ensures C02.body-replies-only-before-an-entry-is-selected: emitKind == 3 ==> acsCalls == old(acsCalls) || acsUrl == "" || (acsBinding != PostBinding && acsBinding != RedirectBinding)
+//@   ## C05: signature gating on the values acted on
+//@   ensures C05,C06.acts-on-what-was-decoded: accepted() ==> decCalls == old(decCalls) + 1 && decOK && decObj == persistReq && decMsg == formValue(r, "SAMLRequest") &&
+//@             persistRelay == formValue(r, "RelayState") && persistApp == regSP().ID
+//@   ensures C05.redirect-binding-required-or-present-implies-verified: accepted() && redirectBinding(r) && (signingRequired(p) || formValue(r, "Signature") != "") ==> verifiedRedirect(r)
+//@   ensures C05.redirect-binding-never-carries-an-unverified-enveloped-signature: accepted() && redirectBinding(r) ==> !envelopedSigValue()
+//@   ensures C05.post-binding-required-or-present-implies-verified: accepted() && !redirectBinding(r) && (signingRequired(p) || envelopedSigValue()) ==> verifiedPost(r)
+//@   ## C06: the content check ran, on the request persisted, against the provider looked up, and passed; nothing changed the request in between
+//@   ensures C06.content-check-passed-on-the-persisted-request: accepted() ==> rcCalls == old(rcCalls) + 1 && rcOK && rcReq == persistReq && rcSP == spRef && rcVer == persistVer
+//@   ensures C06.request-and-signature-parameters: accepted() ==> formValue(r, "SAMLRequest") != "" && (formValue(r, "SigAlg") != "" ==> formValue(r, "Signature") != "")
+//@   ensures C06.issuer-lookup: accepted() ==> spOK && spLookups == old(spLookups) + 1
 //@ func (*provider.IdentityProvider).logoutHandleFunc
 //@   inline
 //@   property C09
@@ -226,3 +279,41 @@ package provider
 //@   inline
 //@   property C09
 //@   requires i != nil && i.issuerFromRequest != 0 && wfReq(r) && next != nil
+//@
+//@ ## the two loops of getMetadata blank the values of attribute descriptions built in the same call
+//@ func (*provider.IdentityProviderConfig).getMetadata
+//@   inline
+//@   property C11
+//@   loop 1 assigns fresh
+//@   loop 2 assigns fresh
+//@
+//@ ## ---- validation steps of the SSO chain (closures returned by named factories; getters are their parameters) ----
+//@ pure advertised(md, dest) = exists j :: 0 <= j && j < len(md.SingleSignOnService) && dest == md.SingleSignOnService[j].Location
+//@ func provider.checkRequestRequiredContent$1
+//@   property C06
+//@   inline
+//@   requires deref(spF) != 0 && deref(idpMetadataF) != 0 && deref(authNRequestF) != 0
+//@   requires getRef(deref(authNRequestF)) != nil && as(getRef(deref(authNRequestF)), "samlp.AuthnRequestType").Issuer != nil
+//@   requires getRef(deref(spF)) != nil && as(getRef(deref(spF)), "serviceprovider.ServiceProvider").Metadata != nil && getRef(deref(idpMetadataF)) != nil
+//@   enter rcCalls = rcCalls + 1
+//@   leave rcOK = (result == nil)
+//@   leave rcReq = #authNRequest
+//@   leave rcSP = #sp
+//@   leave rcMeta = #idpMetadata
+//@   leave rcVer = msgver
+//@   ensures id-version-issuer: result == nil ==> #authNRequest.Id != "" && #authNRequest.Version != "" && #authNRequest.Issuer.Text != "" &&
+//@             #authNRequest.Issuer.Text == #sp.Metadata.EntityID
+//@   ensures destination-is-advertised: result == nil && #authNRequest.Destination != "" ==> advertised(#idpMetadata, #authNRequest.Destination)
+//@   ensures conditions-bracket-now: result == nil && #authNRequest.Conditions != nil && (#authNRequest.Conditions.NotBefore != "" || #authNRequest.Conditions.NotOnOrAfter != "") ==>
+//@             nowCalls == old(nowCalls) + 1 &&
+//@             (#authNRequest.Conditions.NotBefore != "" ==> timeParseOK(DefaultTimeFormat, #authNRequest.Conditions.NotBefore) && timeVal(DefaultTimeFormat, #authNRequest.Conditions.NotBefore) <= clock) &&
+//@             (#authNRequest.Conditions.NotOnOrAfter != "" ==> timeParseOK(DefaultTimeFormat, #authNRequest.Conditions.NotOnOrAfter) && clock < timeVal(DefaultTimeFormat, #authNRequest.Conditions.NotOnOrAfter))
+//@   canary canary-always-ok: result == nil
+//@
+//@ func provider.verifyRequestDestinationOfAuthRequest
+//@   property C06
+//@   requires metadata != nil && request != nil
+//@   assigns nothing
+//@   ensures ok-iff-absent-or-advertised: (result == nil) <==> (request.Destination == "" || advertised(metadata, request.Destination))
+//@   loop 1 invariant range: -1 <= $ri && $ri < len(metadata.SingleSignOnService)
+//@   loop 1 invariant none-so-far: (forall j :: 0 <= j && j <= $ri ==> metadata.SingleSignOnService[j].Location != request.Destination)
